@@ -338,6 +338,9 @@ class OverridableProbe(Probe):
         """
 
         def _override(data):
+            if isinstance(data, _UnsetFocus):
+                # The focus variable is only declared: it has no value yet
+                data = {**data, data._focus: None}
             self._root._value = setter(**data)
 
         return self.subscribe(_override)
